@@ -349,6 +349,8 @@ func (w *World) registry(h *HostSpec, req *http.Request, a *Arrival) *http.Respo
 			hs, text = []string{"Negotiate"}, ""
 		case "malformed":
 			hs, text = []string{`Bearer realm="unterminated`}, ""
+		case "basic":
+			hs, text = []string{`Basic realm="registry"`}, "" // a challenge the client can only meet with a password
 		}
 	}
 	for _, x := range hs {
